@@ -49,7 +49,10 @@ def enable(scope=None):
 
     if os.path.exists(gitattributes):
         with io.open(gitattributes, encoding="utf8") as f:
-            if 'merge=jupyternotebook' in f.read():
+            # (only rule lines count: not a line that was commented out)
+            if any('merge=jupyternotebook' in line.split()
+                   for line in f.read().splitlines()
+                   if not line.lstrip().startswith('#')):
                 # already written, nothing to do
                 return
     else:
